@@ -22,7 +22,9 @@
 EXTENDS Integers, Sequences, TLC, Json, FiniteSets
 CONSTANTS MaxLen,     \* longest enumerated raw buffer
           Alphabet,   \* bytes of raw buffers
-          First,      \* partition on the first byte (256 = the empty buffer)
+          First,      \* partition on the first byte (256 = the empty buffer); for "render": first byte of the first target
+          Second,     \* partition on the second byte (256 = buffers shorter than two); for "render": first byte of the first prerequisite (256 = none)
+          DepLen,     \* longest first prerequisite in rendered rule lists (targets: PathLen; a second prerequisite has length 1)
           Family,     \* "all": raw strings;  "render": rendered rule lists (RoundTrip)
           PathLen     \* longest path in rendered rule lists
 
@@ -162,7 +164,7 @@ RuleEvents(r) == << <<"S", r.t>> >> \o [i \in 1..Len(r.d) |-> <<"D", r.d[i]>>] \
 
 (* one rule with up to two prerequisites (the second one short), or two one-prerequisite rules *)
 OneRule == { [t |-> t, d |-> d] : t \in TargetPaths(PathLen),
-             d \in {<<>>} \cup { <<a>> : a \in DepPaths(PathLen) } \cup { <<a, b>> : a \in DepPaths(PathLen), b \in DepPaths(1) } }
+             d \in {<<>>} \cup { <<a>> : a \in DepPaths(DepLen) } \cup { <<a, b>> : a \in DepPaths(DepLen), b \in DepPaths(1) } }
 Sources == { <<r>> : r \in OneRule } \cup
            { << [t |-> t1, d |-> <<a>>], [t |-> t2, d |-> <<b>>] >> : t1 \in TargetPaths(1), t2 \in TargetPaths(1), a \in DepPaths(1), b \in DepPaths(1) }
 Styles == { [sep |-> sep, end |-> e, raw |-> raw] : sep \in Seps, e \in Ends, raw \in BOOLEAN }
@@ -171,16 +173,21 @@ Render(rs, y) ==
   ELSE RenderRule(rs[1], y.sep, y.raw) \o (IF y.end = <<>> THEN <<NL>> ELSE y.end) \o RenderRule(rs[2], y.sep, y.raw) \o y.end
 
 ---------------------------------------------------------------------------------------------
-Strs == UNION { [1..n -> Alphabet] : n \in 0..MaxLen }
-InPart(s) == IF s = <<>> THEN 256 \in First ELSE s[1] \in First
+StrsUpTo(k) == UNION { [1..n -> Alphabet] : n \in 0..k }
+Part ==    \* the raw buffers of this partition, built from their first two bytes
+  (IF 256 \in First THEN {<<>>} ELSE {})
+  \cup (IF 256 \in Second /\ MaxLen >= 1 THEN { <<a>> : a \in First \ {256} } ELSE {})
+  \cup { <<a, b>> \o t : a \in First \ {256}, b \in Second \ {256}, t \in StrsUpTo(MaxLen - 2) }
+InRenderPart(rs) == /\ rs[1].t[1] \in First
+                    /\ (IF rs[1].d = <<>> THEN 256 \in Second ELSE rs[1].d[1][1] \in Second)
 
 Init ==
   \/ /\ Family = "all"
-     /\ buf \in { s \in Strs : InPart(s) }
+     /\ buf \in Part
      /\ src = <<>>
      /\ out = OutOf(buf)
   \/ /\ Family = "render"
-     /\ src \in { rs \in Sources : rs[1].t[1] \in First }
+     /\ src \in { rs \in Sources : InRenderPart(rs) }
      /\ \E y \in Styles : buf = Render(src, y)
      /\ out = OutOf(buf)
 Next == FALSE /\ UNCHANGED <<buf, src, out>>
